@@ -81,6 +81,27 @@ pub fn universe_mat_lifted(sc: &uni::Scratch, tier: Tier, lift: usize) -> Tree {
 	tb.add_invalid("x:g3cb-at-5-on-fork", Some(g4), &BlockSpec::with(93, vec![uni::spend_coinbase(&kc, 63, REWARD, &[(223, REWARD - M)], 63)]));
 	tb.add_invalid("x:lock7-at-6", Some(m5), &BlockSpec::with(94, vec![lock(7, 64, (200, REWARD / 2), 224)]));
 	tb.add_invalid("x:lock9-at-8-on-fork", Some(g7), &BlockSpec::with(95, vec![lock(9, 65, (210, REWARD - M), 225)]));
+	// ---- two coinbases in one transaction at height 7 on m6: a mature one (m1: 1+3, m4: 4+3 <= 7) together with an
+	// immature one (m5: 5+3, m6: 6+3 > 7). Inputs are sorted by commitment, which has nothing to do with age: the
+	// four pairs must contain both orders (mature one first / last)
+	{
+		let (mut mature_last, mut mature_first) = (0, 0);
+		let mut k = 0u32;
+		for (a, av) in [(1u32, REWARD), (4, REWARD)] {
+			for (i, iv) in [(5u32, REWARD + M), (6, REWARD + M)] {
+				if uni::commit_of(&kc, a, av).0.to_vec() > uni::commit_of(&kc, i, iv).0.to_vec() {
+					mature_last += 1;
+				} else {
+					mature_first += 1;
+				}
+				tb.add_invalid(&format!("x:cb{}+cb{}-at-7", a, i), Some(m6), &BlockSpec::with(110 + k, vec![uni::spend_coinbases(&kc, &[(a, av), (i, iv)], &[(240 + k, av + iv - M)], 80 + k as u64)]));
+				k += 1;
+			}
+		}
+		assert!(mature_last > 0 && mature_first > 0, "universe: the two-coinbase probes must contain both input orders ({} / {})", mature_last, mature_first);
+		// and two mature ones together (reference-valid sibling of m7)
+		tb.add("v:cb1+cb4-at-7", Some(m6), &BlockSpec::with(119, vec![uni::spend_coinbases(&kc, &[(1, REWARD), (4, REWARD)], &[(249, 2 * REWARD - M)], 89)]));
+	}
 	// ---- at / above thresholds as alternatives (reference-valid siblings)
 	if full {
 		tb.add("v:lock5-at-6", Some(m5), &BlockSpec::with(96, vec![lock(5, 66, (200, REWARD / 2), 226)]));
